@@ -724,3 +724,112 @@ impl ByteSeq {
 }
 // the response frame of the binary protocol:  status:u32 | length:u32 | body[length]     (status 0 = OK; an error response has no body)
 pub open spec fn resp_frame(status: u32, body: Seq<u8>) -> Seq<u8> { le32(status) + le32(body.len() as u32) + body }
+pub proof fn lemma_resp_layout(status: u32, body: Seq<u8>)
+    requires body.len() <= u32::MAX,
+    ensures
+        ({
+            let b = resp_frame(status, body);
+            &&& b.len() == 8 + body.len()
+            &&& b.subrange(0, 4) == le32(status) && un_le32(b.subrange(0, 4)) == status
+            &&& b.subrange(4, 8) == le32(body.len() as u32) && un_le32(b.subrange(4, 8)) == body.len()
+            &&& b.subrange(8, 8 + body.len() as int) == body
+        }),
+{
+    lemma_le_facts();
+    let b = resp_frame(status, body);
+    assert(b.subrange(0, 4) =~= le32(status));
+    assert(b.subrange(4, 8) =~= le32(body.len() as u32));
+    assert(b.subrange(8, 8 + body.len() as int) =~= body);
+}
+// R8 schema for Result::map_err (std semantics): the closure body is lifted verbatim as the ghost function `f`
+pub trait MapErrSpec<T, E> { fn map_err_spec<F>(self, f: Ghost<spec_fn(E) -> F>) -> Result<T, F>; }
+impl<T, E> MapErrSpec<T, E> for Result<T, E> {
+    #[verifier::external_body]
+    fn map_err_spec<F>(self, Ghost(f): Ghost<spec_fn(E) -> F>) -> (r: Result<T, F>)
+        ensures
+            self matches Ok(v) ==> r == Ok::<T, F>(v),
+            self matches Err(e) ==> r == Err::<T, F>(f(e)),
+    { unimplemented!() }
+}
+
+// ---- the server's QUIC response writer (server/src/quic/quic_sender.rs): stand-ins ------------------------------------------------------------
+//   sent()     the bytes handed to this send stream so far, in order (appended ONLY by write_all)
+//   finished() the stream was finished: the peer's read_to_end sees exactly sent() (quinn SendStream::finish)
+pub struct WriteError { pub p: u8 }
+pub struct ClosedStream { pub p: u8 }
+impl SendStream {
+    pub uninterp spec fn sent(&self) -> Seq<u8>;
+    pub uninterp spec fn finished(&self) -> bool;
+    // quinn SendStream::write_all: Ok => the whole buffer was accepted, in order; on Err nothing is promised about how far it got
+    #[verifier::external_body]
+    pub fn write_all(&mut self, buf: &[u8]) -> (r: Result<(), WriteError>)
+        ensures
+            r is Ok ==> final(self).sent() == old(self).sent() + buf@ && final(self).finished() == old(self).finished(),
+            final(self).sent().len() >= old(self).sent().len(),
+    { unimplemented!() }
+    #[verifier::external_body]
+    pub fn finish(&mut self) -> (r: Result<(), ClosedStream>)
+        ensures final(self).sent() == old(self).sent(), r is Ok ==> final(self).finished(),
+    { unimplemented!() }
+}
+// <[&[u8]]>::concat (R4-concat): the slices one after the other
+pub open spec fn concat_all(s: Seq<&[u8]>) -> Seq<u8>
+    decreases s.len()
+{
+    if s.len() == 0 { Seq::<u8>::empty() } else { concat_all(s.drop_last()) + s.last()@ }
+}
+pub trait ConcatBytes { fn concat_bytes(&self) -> Vec<u8>; }
+impl<'a> ConcatBytes for [&'a [u8]] {
+    #[verifier::external_body]
+    fn concat_bytes(&self) -> (r: Vec<u8>) ensures r@ == concat_all(self@) { unimplemented!() }
+}
+impl IggyError {
+    // the server's side of the error-code table (uninterpreted; `from_code(as_code(e))` is the Kani table check of C13)
+    pub uninterp spec fn code_spec(&self) -> u32;
+    #[verifier::external_body]
+    pub fn as_code(&self) -> (r: u32) ensures r == self.code_spec() { unimplemented!() }
+}
+// the value of the server's STATUS_OK constant (proved of its extracted initializer, see unit.toml R12-const)
+pub open spec fn all_zero4(s: Seq<u8>) -> bool { s.len() == 4 && forall|i: int| 0 <= i < 4 ==> s[i] == 0 }
+// A-math: the little-endian bytes of 0u32 are four zero bytes (vstd keeps `spec_u32_to_le_bytes` closed and exports only the
+// bijection lemma, so this one value of the encoding has to be stated; it ties the server's STATUS_OK = [0; 4] to `status == 0`)
+#[verifier::external_body]
+pub proof fn axiom_le32_zero()
+    ensures le32(0) == Seq::new(4, |i: int| 0u8),
+{}
+// technical: the four zero bytes of the server's STATUS_OK are the status word 0
+pub proof fn lemma_le32_zero()
+    ensures forall|s: Seq<u8>| #[trigger] all_zero4(s) ==> s == le32(0),
+{
+    axiom_le32_zero();
+    let z = le32(0);
+    assert forall|s: Seq<u8>| #[trigger] all_zero4(s) implies s == z by { assert(s =~= z); }
+}
+
+// ---- the SDK's QUIC client: the request side (sdk/src/quic/client.rs send_raw) ------------------------------------------------------------------
+// the request frame of the binary protocol:  length:u32 (= 4 + |payload|) | code:u32 | payload        (length counts code and payload)
+pub open spec fn quic_req_frame(code: u32, payload: Seq<u8>) -> Seq<u8> { le32((payload.len() + 4) as u32) + le32(code) + payload }
+// what the receive side of a request stream carries: nothing (the server dropped the stream without answering: it refused the frame
+// at the gate, unit frame_gate) or exactly ONE response frame ([C13.quic.response.frame*]: the server's writers emit nothing else)
+pub open spec fn quic_response_stream(b: Seq<u8>) -> bool {
+    b.len() == 0 || exists|status: u32, body: Seq<u8>| body.len() <= u32::MAX && b == resp_frame(status, body)
+}
+#[verifier::external_body]
+pub struct Connection { _p: u8 }
+pub struct ConnectionError { pub p: u8 }
+impl Connection {
+    // quinn Connection::open_bi: a NEW bidirectional stream - nothing was written on it yet. A-peer: its receive side will carry
+    // what the server answers to the request written on its send side (see quic_response_stream)
+    #[verifier::external_body]
+    pub fn open_bi(&self) -> (r: Result<(SendStream, RecvStream), ConnectionError>)
+        ensures r matches Ok(x) ==> x.0.sent() == Seq::<u8>::empty() && !x.0.finished() && quic_response_stream(x.1.pending()),
+    { unimplemented!() }
+}
+// `Bytes: Deref<Target = [u8]>`: a `&Bytes` is accepted where a `&[u8]` is expected (`send.write_all(&payload)`)
+impl core::ops::Deref for ByteSeq {
+    type Target = [u8];
+    #[verifier::external_body]
+    fn deref(&self) -> (r: &[u8])
+        ensures r@ == self@,
+    { unimplemented!() }
+}
